@@ -148,6 +148,7 @@ class Connection(object):
         self._recvlock = Lock()
         self._sendlock = Lock()
         self._cleanup_lock = RLock()
+        self._proxy_count_lock = Lock()
         self._cleaned_up = False
         self._recv_event = Condition()
         self._request_callbacks = {}
@@ -303,7 +304,8 @@ class Connection(object):
             # followed by a second look-up would then fail on the vanished entry
             proxy = self._proxy_cache.get(id_pack)
             if proxy is not None:
-                proxy.____refcount__ += 1  # if cached then remote incremented refcount, so sync refcount
+                with self._proxy_count_lock:  # two threads may be unboxing references to the same object
+                    proxy.____refcount__ += 1  # if cached then remote incremented refcount, so sync refcount
             else:
                 proxy = self._netref_factory(id_pack)
                 self._proxy_cache[id_pack] = proxy
